@@ -192,9 +192,24 @@ def check_record(args):
                         mag[q] += w[q] * abs(zz)
             out['nloads'] += 1
         # ---- (A) exact diagonal increments
+        import copy
+        twin = copy.deepcopy(m)             # an object that will never see the first frequency
         m.Z = np.zeros((N, N), dtype=complex)
         m.compute_impedance_matrix_loads()
         got = np.array(m.Z)
+        # "at every frequency": the same object at a second frequency gives what an object gives that was never
+        # at the first one (per-wire caches of the distributed loads)
+        f2 = f * rnd.choice([0.5, 1.7, 3.0])
+        m.f = f2
+        m.Z = np.zeros((N, N), dtype=complex)
+        m.compute_impedance_matrix_loads()
+        twin.f = f2
+        twin.Z = np.zeros((N, N), dtype=complex)
+        twin.compute_impedance_matrix_loads()
+        if not np.allclose(np.diag(m.Z), np.diag(twin.Z), rtol=1e-12, atol=0):
+            qd = int(np.argmax(np.abs(np.diag(m.Z) - np.diag(twin.Z))))
+            out['mism'].append(dict(what='load-term-depends-on-earlier-frequency', pulse=qd, distributed=dk, kinds=out['kinds'], f=f, f2=f2))
+        m.f = f
         offd = got - np.diag(np.diag(got))
         if np.abs(offd).max(initial=0) != 0:
             out['mism'].append(dict(what='off-diagonal-load-term'))
